@@ -70,3 +70,10 @@ func __base[T any](s []T) uintptr {
 	}
 	return uintptr(unsafe.Pointer(&s[:cap(s)][0]))
 }
+
+// __called / __failed: ghost call records maintained by the verifier
+// ("the function reached a call of <name>" / "its last such call returned a
+// non-nil error"); not observable when replayed.
+func __called(name string) bool { return false }
+
+func __failed(name string) bool { return false }
